@@ -150,7 +150,7 @@ def sample_users(
         _log.warning(
             "cannot take %d disjoint samples of size %d from %d users", repeats, size, len(users)
         )
-        return crossfold_users(data, repeats, method)
+        return crossfold_users(data, repeats, method, rng=rng)
 
     _log.info("sampling %d users (n=%d)", len(users), size)
 
